@@ -5,8 +5,8 @@ CONSTANTS
   Hdrs = {"none"}
   MaxNow = 0
   Window = 3
-  Limit = 3
-  FLimit = 3
+  Limit = 2
+  FLimit = 2
   TokenCfg = TRUE
   PowOn = FALSE
   Families = {"auth"}
